@@ -216,6 +216,64 @@ def gen_close_pair(rng, hist):
     return a, ("L", plain(w))
 
 
+def dyadic_text(q):
+    """exact positional decimal text of a Fraction whose denominator is a power of two (integers only)"""
+    n, d = q.numerator, q.denominator
+    k = d.bit_length() - 1
+    assert d == 1 << k
+    neg, n = n < 0, abs(n)
+    digs = str(n * 5 ** k)
+    if k:
+        digs = digs.rjust(k + 1, "0")
+        digs = (digs[:-k] + "." + digs[-k:]).rstrip("0").rstrip(".")
+    return ("-" if neg else "") + digs
+
+
+def gen_parseround(rng, hist):
+    """decimal -> double rounding of LONG digit strings (value.rs:996 `raw_text(start).parse::<f64>()`):
+    the literal is the exact midpoint of two adjacent doubles d0 < d1 (tie: even mantissa wins), or a
+    hair above / below it, or the full expansion of d0 / d1 with a perturbed tail; the observation
+    `(literal - d0) * 2^k` is exactly 0 or 1 (Sterbenz), so the printed text exposes the last bit."""
+    from fractions import Fraction as F
+    e = rng.randrange(-30, 62)
+    m = (1 << 52) | rng.getrandbits(52)
+    if rng.random() < 0.15:
+        m = rng.choice([1 << 52, (1 << 53) - 1, (1 << 52) + 1, (1 << 53) - 2])
+    ulp = F(2) ** (e - 52)
+    d0, mid = m * ulp, m * ulp + ulp / 2
+    base = dyadic_text(mid)
+    if "." not in base:
+        base += ".0"
+    var = rng.choice(["tie", "above", "below", "d0+", "d1-", "quarter"])
+    if var == "tie":
+        text = base
+    elif var == "above":
+        text = base + "0" * rng.randrange(0, 30) + "1"
+    elif var == "below":
+        ip, fp = base.split(".")
+        n = int(ip + fp) * 10 ** 12 - 1
+        digs = str(n).rjust(len(fp) + 13, "0")
+        text = digs[:-(len(fp) + 12)] + "." + digs[-(len(fp) + 12):]
+    elif var == "d0+":
+        t = dyadic_text(d0)
+        text = (t if "." in t else t + ".") + "0" * rng.randrange(1, 25) + str(rng.randrange(1, 10 ** 6))
+    elif var == "d1-":
+        text = dyadic_text(d0 + ulp * F(rng.choice([3, 5, 7, 15]), 16))
+    else:
+        text = dyadic_text(d0 + ulp / 4) + str(rng.randrange(10 ** 5))
+        if "." not in text:
+            text = dyadic_text(d0 + ulp / 4)
+    if rng.random() < 0.2:                                  # the same digits in exponent spelling
+        ip, fp = (text.split(".") + [""])[:2]
+        text = f"{ip + fp}e-{len(fp)}" if fp and rng.random() < 0.5 else f"{text}E+0"
+        hist("parseround:exponent-spelling")
+    hist("parseround:" + var)
+    hist("parseround:sigdigits>17" if len(text.replace(".", "").strip("0")) > 17 else "parseround:sigdigits<=17")
+    neg = rng.random() < 0.3
+    sg = "-" if neg else ""
+    return ("B", "mul", ("B", "sub", ("L", sg + text), ("L", sg + dyadic_text(d0)), False), ("L", dyadic_text(1 / ulp)), False)
+
+
 def gen_case(rng, kind, hist):
     if kind == "lit":
         return gen_lit(rng, hist)
@@ -266,6 +324,8 @@ def gen_case(rng, kind, hist):
         if r < 0.9:
             return ("B", "div", ("L", "1"), m, True)          # sign of a zero remainder
         return ("B", "mod", m, ("L", rng.choice(["-" + bs, bs, "2", "-2"])), False)
+    if kind == "parseround":
+        return gen_parseround(rng, hist)
     if kind == "nth":
         n = rng.choice([3, 5])
         idx = rng.choice([0, 1, 2, n - 1, n, n + 1, -1, -n, -n - 1])
@@ -312,9 +372,12 @@ CORPUS = [
     ("U", "interp", ("L", "0.99999999999"), False),
 ]
 
-SIZES = {"quick": {"lit": 9000, "str": 800, "arith": 3500, "cmp": 1500, "nth": 600, "divchain": 1500, "modbound": 1500},
+SIZES = {"quick": {"lit": 9000, "str": 800, "arith": 3500, "cmp": 1500, "nth": 600, "divchain": 1500, "modbound": 1500,
+                   "parseround": 800},
          "thorough": {"lit": 70000, "str": 4000, "arith": 28000, "cmp": 9000, "nth": 3000, "divchain": 12000,
-                      "modbound": 12000}}
+                      "modbound": 12000, "parseround": 12000}}
+SCAN_N = {"quick": 2000, "thorough": 25000}
+MFN_N = {"quick": 1000, "thorough": 15000}
 
 
 def gen_cases(ck, tier):
@@ -609,6 +672,181 @@ def evaluate_math(ck, pool):
     return failing
 
 
+# ---------------------------------------------------------------------------------------------
+# `parse_number` as a prefix scanner (Lean `scanNumber`): spellings with signs, leading / trailing dots,
+# exponents (complete, truncated, huge), long digit strings, followed by nothing / `%` / a unit / a dot
+# ---------------------------------------------------------------------------------------------
+
+SCAN_CORPUS = ["1e3", "1E-3", "1e+3", ".5", "5.", "+5", "1e400", "-1e400", "1e400px", "1e", "1em", "1e-x", "1e+", "5.e3",
+               ".x", "+.5e1px", "1.5E2%", "1e3x", "-0px", "9007199254740993", ".", "+.", "-.e1",
+               "1.7976931348623157e308", "1.7976931348623159e308", "1.797693134862315807e308", "1.797693134862315808e308",
+               "179769313486231580793728971405303415079934132710037826936173778980444968292764750946649017977587207096330286416692887910946555547851940402630657488671505820681908902000708383676273854845817711531764475730270069855571366959622842914819860834936475292719074168444365510704342711559699508093042880177904174497791.999",
+               "2.2250738585072014e-308", "1e308", "1e309", "0e999", "0.0e-999", "1E", "1e1e1", "00012.500e+01px"]
+# precondition (the dispatcher in parse_single_expression, value.rs:318-328, 497-499, 1094-1117, is not part of the
+# model): parse_number is entered on a digit, on `.` not followed by `.`, on a sign followed by a digit or `.`;
+# units are lower-case or unknown words (Unit::from folds the case of known unit names — C08's subject).
+
+
+def gen_scan_text(rng, hist):
+    digs = lambda n: "".join(rng.choice("0123456789") for _ in range(n))
+    sign = rng.choice(["", "", "", "+", "-", "-"])
+    ip = rng.choice(["", "0", "5", "12", "007", str(rng.randrange(0, 10 ** 6)), digs(rng.randrange(18, 45)), "1", "9"])
+    fp = rng.choice([None, None, "", "5", "25", "000", digs(rng.randrange(1, 12)), digs(rng.randrange(18, 60)), "0"])
+    ex = rng.choice([None, None, None, "e3", "E-3", "e+3", "e", "E", "e+", "e-", "e-x", "e0", "e10", "e-12", "E+02", "e308",
+                     "e309", "e400", "e-5", "e+x", "e1", "E1e1", f"e{rng.randrange(-30, 330)}", f"e-{rng.randrange(0, 300)}"])
+    rest = rng.choice(["", "", "", "", "%", "px", "em", "ex", "x", "e", "E", "zz", "deg", ".", ".x", "rem"])
+    text = sign + ip + ("" if fp is None else "." + fp) + (ex or "") + rest
+    if ip == "" and fp in (None, ""):
+        text = sign + "." + (ex or "") + rest if rng.random() < 0.5 else sign + "1" + (ex or "") + rest
+    unit = re.search(r"[A-Za-z]+$", text)
+    if ".." in text or (unit and len(unit.group(0)) > 1 and unit.group(0) != unit.group(0).lower()):
+        return gen_scan_text(rng, hist)                     # outside the precondition stated above
+    for key, cond in [("exp", ex is not None), ("trailing-dot", fp == ""), ("lead-dot", ip == "" and fp), ("sign" + sign, True),
+                      ("unit", rest not in ("", ".", ".x")), ("long-digits", len(ip) + len(fp or "") > 17),
+                      ("rest-dot", rest.startswith("."))]:
+        if cond:
+            hist("scan:" + key)
+    return text
+
+
+def evaluate_scan(ck, pool, n):
+    texts = list(SCAN_CORPUS) + [gen_scan_text(ck.rng, ck.hist) for _ in range(n)]
+    texts = list(dict.fromkeys(texts))
+    failing = []
+    outs = driver([f"num scan {st} {hexs(t)}" for t in texts for st in ("e", "c")])
+    model = {}
+    for i, t in enumerate(texts):
+        for k, st in enumerate(("e", "c")):
+            o = outs[2 * i + k]
+            if o.startswith("ok "):
+                parts = o.split(" ")
+                model[(i, st)] = ("ok " + unhex(parts[1]), parts[2], parts[3])
+            else:
+                model[(i, st)] = (o, "", "")
+    live = [i for i in range(len(texts)) if model[(i, "e")][0] != "unsupported"]
+    ck.cov["unsupported_dropped"] += len(texts) - len(live)
+    ok_idx = [i for i in live if model[(i, "e")][0].startswith("ok ")]
+    err_idx = [i for i in live if not model[(i, "e")][0].startswith("ok ")]
+    jobs, meta = [], []
+    B = 250
+    for off in range(0, len(ok_idx), B):
+        chunk = ok_idx[off:off + B]
+        src = "\n".join(f"x{{i:{i}; v: {texts[i]};}}" for i in chunk)
+        for st in ("e", "c"):
+            jobs.append(compile_job(src, style="compressed" if st == "c" else None, syntax="scss"))
+            meta.append((chunk, st))
+    for i in err_idx:
+        jobs.append(compile_job(f"x{{i:{i}; v: {texts[i]};}}", syntax="scss"))
+        meta.append(([i], "e"))
+    obs = {}
+    retry = []
+    for (chunk, st), ans in zip(meta, pool.map(jobs, timeout=30)):
+        if ans.get("status") == "ok":
+            found = {int(m.group(1)): m.group(2) for m in RULE.finditer(ans.get("css") or "")}
+            for i in chunk:
+                obs[(i, st)] = ("ok " + found[i]) if i in found else "status missing-rule"
+        elif len(chunk) == 1:
+            msg = (ans.get("err") or {}).get("message") or ""
+            obs[(chunk[0], st)] = "err digit" if ans.get("status") == "err" and "Expected digit." in msg \
+                else f"status {ans.get('status')} {msg or ans.get('panic') or ''}"[:160]
+        else:
+            retry += [(i, st) for i in chunk]
+    if retry:
+        jobs2 = [compile_job(f"x{{i:{i}; v: {texts[i]};}}", style="compressed" if st == "c" else None, syntax="scss")
+                 for i, st in retry]
+        for (i, st), ans in zip(retry, pool.map(jobs2, timeout=20)):
+            if ans.get("status") == "ok":
+                m = RULE.search(ans.get("css") or "")
+                obs[(i, st)] = ("ok " + m.group(2)) if m else "status missing-rule"
+            else:
+                msg = (ans.get("err") or {}).get("message") or ""
+                obs[(i, st)] = "err digit" if "Expected digit." in msg else f"status {ans.get('status')} {msg}"[:160]
+    for (i, st), o in sorted(obs.items()):
+        want, rest, same = model[(i, st)]
+        t = texts[i]
+        ck.count(("c07-scan", t, st), True)
+        ck.hist("scan-result:" + ("err digit" if want == "err digit" else "Infinity" if "Infinity" in want else "ok"))
+        if rest and rest != "rest=0":
+            ck.hist("scan-result:rest>0")
+        if same == "same=0":
+            failing.append({"source": f"x{{v: {t};}}", "style": st, "impl_observation": o, "model_observation": want,
+                            "verdict": "scanNumber and parseLit disagree on the consumed prefix (theorem C07_scan_sound broken)",
+                            "expected_by_property": "internal: scanner/grammar mismatch", "tags": [], "size": 1})
+        if o != want:
+            ck.cov["model_disagreements"] += 1
+            if len(ck.disagreements) < 5:
+                ck.disagreements.append({"source": f"v: {t}", "style": st, "model_observation": want, "impl_observation": o})
+            failing.append({"source": f"x{{v: {t};}}", "style": st, "impl_observation": o, "model_observation": want,
+                            "verdict": None, "tags": [], "size": 1,
+                            "expected_by_property": "number literal must denote the correctly rounded double of its decimal "
+                                                    "text (prefix taken by parse_number), printed by the printing rule"})
+    return failing
+
+
+def evaluate_mfn(ck, pool, n):
+    """math.min / math.max / math.clamp / math.percentage on literal arguments (Lean minD maxD clampD percentageD)"""
+    rng = ck.rng
+    cases = [("clamp", ["1", "1.000000000004", "1"]), ("clamp", ["1", "0.5", "3"]), ("clamp", ["3", "2", "1"]),
+             ("min", ["1", "1.000000000001", "0.999999999999"]), ("max", ["1", "1.000000000001"]), ("min", ["0", "-0"]),
+             ("max", ["-0", "0"]), ("percentage", ["0.123"]), ("percentage", ["1e400"]), ("min", ["1e400", "5"]),
+             ("clamp", ["-1e400", "7", "1e400"]), ("percentage", ["0.07"])]
+    for _ in range(n):
+        fn = rng.choice(["min", "max", "clamp", "percentage", "min", "max", "clamp"])
+        k = {"clamp": 3, "percentage": 1}.get(fn, rng.choice([2, 2, 3, 4]))
+        a = gen_lit(rng, ck.hist)[1]
+        args = [a]
+        while len(args) < k:
+            r = rng.random()
+            if r < 0.6:
+                try:
+                    v = Decimal(rng.choice(args))
+                    d = Decimal(rng.choice(DELTAS))
+                    args.append(plain(v + (d if rng.random() < 0.5 else -d)))
+                    continue
+                except Exception:
+                    pass
+            args.append(gen_lit(rng, ck.hist)[1])
+        rng.shuffle(args)
+        cases.append((fn, args))
+    outs = driver([f"num mfn {st} {fn} {' '.join(args)}" for fn, args in cases for st in ("e", "c")])
+    failing = []
+    live = [i for i in range(len(cases)) if outs[2 * i].startswith("ok ")]
+    ck.cov["unsupported_dropped"] += len(cases) - len(live)
+    sassarg = lambda a: f"({a})" if a[0] in "+-" else a
+    for k, st in enumerate(("e", "c")):
+        found = {}
+        for off in range(0, len(live), 300):
+            chunk = live[off:off + 300]
+            src = '@use "sass:math";\n' + "\n".join(
+                f"x{{i:{i}; v: math.{cases[i][0]}({', '.join(sassarg(a) for a in cases[i][1])})}}" for i in chunk)
+            ans = pool.map([compile_job(src, style="compressed" if st == "c" else None, syntax="scss")], timeout=30)[0]
+            if ans.get("status") == "ok":
+                found.update({int(m.group(1)): m.group(2) for m in RULE.finditer(ans.get("css") or "")})
+            else:
+                for i in chunk:
+                    found[i] = None
+                    failing.append({"source": src[:300], "style": st, "impl_observation": f"status {ans.get('status')} {(ans.get('err') or {}).get('message', '')}"[:200],
+                                    "model_observation": "ok", "verdict": None, "size": 3, "tags": [],
+                                    "expected_by_property": "sass:math min/max/clamp/percentage on numbers must not fail"})
+                    break
+        for i in live:
+            fn, args = cases[i]
+            want = dec_model(outs[2 * i + k])
+            got = "ok " + found[i] if found.get(i) is not None else "status missing"
+            ck.count(("c07-mfn", fn, tuple(args), st), True)
+            ck.hist("mfn:" + fn)
+            if got != want:
+                ck.cov["model_disagreements"] += 1
+                if len(ck.disagreements) < 5:
+                    ck.disagreements.append({"source": f"math.{fn}({', '.join(args)})", "style": st, "model_observation": want,
+                                             "impl_observation": got})
+                failing.append({"source": f'@use "sass:math";\nx{{v: math.{fn}({", ".join(sassarg(a) for a in args)})}}', "style": st,
+                                "impl_observation": got, "model_observation": want, "verdict": None, "size": 2, "tags": [],
+                                "expected_by_property": f"math.{fn} must pick its result with the tolerance-aware comparison "
+                                                        f"(model {want})"})
+    return failing
+
+
 def run(tier, seed):
     ck = Check("C07", tier, seed)
     ck.disagreements = []
@@ -617,7 +855,12 @@ def run(tier, seed):
                       "m·10^e for e in -12..18, random doubles by bit pattern in 2^-40..2^60, exponent/sign/leading-dot "
                       "spellings; both signs) under + - * / % math.div round ceil floor abs unary± == != < <= > >= nth and "
                       "string conversion; every case in both output styles. Distinct by (rpn, style); a literal case is "
-                      "non-trivial when the printed text differs from the literal text, every operator case is non-trivial.")
+                      "non-trivial when the printed text differs from the literal text, every operator case is non-trivial. "
+                      "Round 3: `parseround` trees (literal at / a hair above / below the exact midpoint of two adjacent doubles, "
+                      "> 17 significant digits, observed through (literal - d0) * 2^k); `scan` texts for parse_number as a prefix "
+                      "scanner (signs, leading / trailing dots, complete / truncated / huge exponents, 18-60 digit strings, "
+                      "% / unit / dot rests; distinct by text and style; expected errors compiled one by one); `mfn` calls of "
+                      "math.min/max/clamp/percentage on close literal arguments.")
     ck.assumptions = ["str::parse::<f64> and format!(\"{:.10}\") are correctly rounded (half-even on exact ties) — modelled, "
                       "checked by the correspondence",
                       "results below the normal range of f64 (subnormal) are not modelled: the driver answers unsupported",
@@ -632,6 +875,8 @@ def run(tier, seed):
     cases = gen_cases(ck, tier)
     failing = evaluate(ck, cases, pool)
     failing += evaluate_math(ck, pool)
+    failing += evaluate_scan(ck, pool, SCAN_N[tier])
+    failing += evaluate_mfn(ck, pool, MFN_N[tier])
     if (not ck.proof["ok"] or ck.cov["model_disagreements"]) and not [f for f in failing if not f["tags"]] \
             and tier == "quick":
         log("[C07] proof or correspondence broken: enlarging the search")
